@@ -164,7 +164,7 @@ PROPS = {
         "level": "proof", "module": "Resolvo.Props.C01", "imports": ["Resolvo.MDet.CheckedProofs"],
         "theorems": ["Resolvo.MDet.solveChecked_ok_valid", "Resolvo.C01.valid_decided", "Resolvo.C01.valid_unfold", "Resolvo.C01.valid_mono_exempt",
                      "Resolvo.validB_iff", "Resolvo.Abs.mu_satisfies"],
-        "families": [("solve", SOLVE_Q), ("soft", SOFT_Q), ("conflictfree", CF_Q), ("hints", HINTS_Q)],
+        "families": [("solve", SOLVE_Q), ("soft", SOFT_Q), ("conflictfree", CF_Q), ("hints", HINTS_Q), ("cancel-async", {"quick": 6000, "thorough": 100000})],
         "profiles": ["debug", "release"],
         "explanation": "PROVED (Lean, all universes/problems/cancellation plans/cache states/fuel): solveChecked_ok_valid - every solution returned by the checked deterministic model of Solver::solve (MDet.solve followed by the verified checkers; objections are the explicit outcome checkFailed) satisfies the full statement of C01 incl. the soft exemption; validB decides Valid exactly. "
                        "TIE: MDet.solve is compared with the real Solver::solve on every generated case for exact equality of result, solution order, provider call log (with cancellation polls) and the complete solver history (variables, clauses, assignments with levels and reasons, undos, learnt clauses with antecedents); validB is also evaluated on the implementation's own answers (debug and release builds). "
